@@ -401,7 +401,11 @@ Proof.
     destruct P as [h1 outs1]. cbn [fst] in HP. cbn [fst].
     assert (C1 : CI h1) by (eapply ci_same; eauto).
     assert (Hs1 : get_sess h1 n = Some s) by (rewrite (same_sc_get _ _ n HP); exact Hs).
-    eapply ci_same; [|apply (ci_put h1 n s (sess_pending (sess_conn s (Some c)) []) C1 Hs1); reflexivity]. ssc.
+    match goal with |- CI (fst (if _ then _ else (?hh, _))) => assert (C5 : CI hh) end.
+    { eapply ci_same; [|apply (ci_put h1 n s (sess_pending (sess_conn s (Some c)) []) C1 Hs1); reflexivity]. ssc. }
+    destruct (queue_closes s); [|exact C5].
+    match goal with |- context [close_conn ?hh c] => destruct (close_conn hh c) as [h6 o6] eqn:H6 end. cbn [fst].
+    rewrite (fst_eq _ _ _ H6). now apply ci_close_conn.
 Qed.
 
 (* ------------------------------------------------------------------ joining *)
@@ -723,7 +727,7 @@ Lemma ci_do_media h c sid s to mk stream media :
 Proof.
   intros C Hs. unfold do_media. destruct to as [i|u| |]; try exact C.
   destruct (N.eqb mk 0).
-  - destruct (negb (offer_allowed (s_perms s) stream media)); [exact C|].
+  - destruct (negb (offer_allowed (s_perms s) stream _)); [exact C|].
     destruct (aget (s_pubs s) stream); [|now apply ci_start_create].
     apply ci_send_session. apply ci_put with s; auto.
   - destruct (N.eqb mk 1).
